@@ -323,6 +323,8 @@ public:
 	splinetable& operator=(splinetable&& other){
 		if(&other==this)
 			return(*this);
+		//release what this table holds, so that the source ends up empty
+		clear();
 		using std::swap;
 		swap(ndim,other.ndim);
 		swap(order,other.order);
